@@ -156,7 +156,8 @@ Definition lsem_of (F: fmt) : lsem :=
 (* what the library returns for a native leaf it was given: msgpack has one binary type *)
 Definition wire (k: lkind) : lkind := match k with KBytearray => KBytes | _ => k end.
 
-Definition is_opt (t: ty) : bool := match t with TOpt _ => true | _ => false end.
+(* builder.py could_be_none: Optional[...] and Any fields are "nullable" (omit_none applies to them) *)
+Definition is_opt (t: ty) : bool := match t with TOpt _ | TAny => true | _ => false end.
 Definition is_vnone (v: pv) : bool := match v with VNone => true | _ => false end.
 Definition is_bnone (b: bv) : bool := match b with BNone => true | _ => false end.
 
